@@ -243,7 +243,11 @@ func cutRun(run Output, mapping []glyphIndex, startRune, endRune int, trimStart 
 	run.Glyphs = run.Glyphs[glyphStart : glyphEnd+1]
 	run.Runes.Count = runeEnd - runeStart + 1
 	run.Runes.Offset = run.Runes.Offset + runeStart
-	if trimStart {
+	if trimStart && len(run.Glyphs) != 0 && run.Glyphs[0].startLetterSpacing != 0 {
+		// the glyphs are shared with the input run, which must not be modified
+		// (it may be cut again at a different place when wrapping the next lines):
+		// trim the spacing on a copy
+		run.Glyphs = append([]Glyph(nil), run.Glyphs...)
 		run.trimStartLetterSpacing()
 	}
 	run.RecomputeAdvance()
